@@ -15,7 +15,7 @@ CHECKS: dict[str, tuple[str, str, str, str]] = {
         " exit status 0 iff compliant on all output paths, the per-result effect table of"
         " ProjectReport.generate, the files_without_* filters and the all-sources construction of the"
         " per-file fields. This is a necessary condition of the behavioural property, decided for all"
-        " paths; it is not a proof that extraction/coverage underneath is right for every tree. Also shares C03's decision table of is_path_ignored (which files are covered at all).",
+        " paths; it is not a proof that extraction/coverage underneath is right for every tree. Also shares C03's decision table of is_path_ignored (which files are covered at all). The LicenseRef- language equals LicenseRef-[A-Za-z0-9.-]+ (regular-language equality, shared with C06).",
         "Trusted: CPython ast, the tabulator (sa/tab.py). Not decided: lower layers (C02-C06).",
         "DESIGN.md §3 C01",
     ),
@@ -72,7 +72,7 @@ CHECKS: dict[str, tuple[str, str, str, str]] = {
         "Decides that no str.index/find result whose range includes 0 is tested by truthiness (package-wide), that"
         " which part filter_ignore_block keeps depends only on marker presence/order exactly as specified (joint"
         " decision-tree exploration; dependence on any other condition is a violation), and that every tag search"
-        " runs on the filtered text. The slice arithmetic itself (string indices for every interleaving) is not decided.",
+        " runs on the filtered text. The slice arithmetic itself (string indices for every interleaving) is not decided. Each file's window is decoded once and filtered as one text (window rule shared with C02).",
         "Trusted: ast, sa/tab.py, sa/fold.py.",
         "DESIGN.md §3 C12",
     ),
@@ -83,7 +83,7 @@ CHECKS: dict[str, tuple[str, str, str, str]] = {
         " extend / append) and compared with the specification on every path (joint lazy decision-tree exploration);"
         " likewise FILE.license shadowing, last-match-wins inside one REUSE.toml, the depth-sorted top-down walk that"
         " stops at the first override, the closest clean-up as a complete 4-state x 4-element flag machine, dep5 ="
-        " AGGREGATE with named source, and dep5/REUSE.toml exclusivity.",
+        " AGGREGATE with named source, and dep5/REUSE.toml exclusivity. REUSE.toml discovery receives the project's coverage options unchanged (shared with C03).",
         "Trusted: ast, sa/tab.py. ReuseInfo's helper predicates are mapped to formulas here and decided in C09.",
         "DESIGN.md §3 C04",
     ),
@@ -118,7 +118,7 @@ CHECKS: dict[str, tuple[str, str, str, str]] = {
         " JSON lists; the plain verdict sentence follows is_compliant; ProjectSubsetReport's verdict, filters and"
         " propagation agree with ProjectReport's on the four shared categories and with what format_lines_subset"
         " prints; lint-file exits 0 iff compliant on every path and rejects outside files before generating."
-        " Textual equality of rendered paths is not decided. The subset report examines subset_files(F) whenever F was given (an empty F is not 'no subset').",
+        " Textual equality of rendered paths is not decided. The subset report examines subset_files(F) whenever F was given (an empty F is not 'no subset'). Nothing is carried from one examined file to the next (task purity shared with C14).",
         "Trusted: ast, sa/tab.py.",
         "DESIGN.md §3 C13",
     ),
@@ -152,7 +152,7 @@ CHECKS: dict[str, tuple[str, str, str, str]] = {
         " effect at all and return a non-zero result; skipped files have no effect; per-file results are accumulated"
         " with no early exit and the command exits min(sum, 1); every usage-error pre-flight precedes the loop, raises"
         " click.UsageError and has no effects; every option of a mutex table is declared MutexOption with that"
-        " table; the anticipated failures (unsupported form, premature terminator) are raised. Every path of _create_new_header that returns a header has evaluated the post-render check (shared with C07-R1; the recorded `and` defect is a known finding here too).",
+        " table; the anticipated failures (unsupported form, premature terminator) are raised. Every path of _create_new_header that returns a header has evaluated the post-render check (shared with C07-R1; the recorded `and` defect is a known finding here too). The multi-line writer's refusal table; error handlers apply str.format to constant format strings only.",
         "Trusted: ast, sa/tab.py, syntactic table of file-system mutators. OS failures of the final write are out of scope.",
         "DESIGN.md §3 C11",
     ),
@@ -163,7 +163,7 @@ CHECKS: dict[str, tuple[str, str, str, str]] = {
         " keyword arguments of template.render ⊆ variables of the default template, with equal tag literals on both"
         " sides; unchanged forwarding of every option along the five-function annotate chain (rename table); the"
         " .license-target and comment-style decision tables; sanity of the folded style tables (29 classes, 261+64"
-        " map entries). That rendering plus commenting round-trips every value is run-time behaviour and not decided. Every jinja2 Environment is constructed without autoescape / finalize / extensions (values are written verbatim).",
+        " map entries). That rendering plus commenting round-trips every value is run-time behaviour and not decided. Every jinja2 Environment is constructed without autoescape / finalize / extensions (values are written verbatim). The multi-line writer refuses every text containing the style's terminator and no style overrides the writer methods or their helper predicates.",
         "Trusted: ast, sa/tab.py, sa/fold.py, Jinja2's parser (no rendering).",
         "DESIGN.md §3 C07",
     ),
@@ -173,7 +173,7 @@ CHECKS: dict[str, tuple[str, str, str, str]] = {
         " (newline=''), line endings are detected before normalisation and the same variable is the newline= of the"
         " write to the same file; that shebang extraction precedes header creation and feeds `before`; that the three"
         " text sections are chained slices of one string; that a BOM is split off before processing and written back"
-        " first. Byte-for-byte preservation of arbitrary bodies is run-time string behaviour and not decided. Every comment_at_first_character returns a prefix of its argument (its length is used as the cut offset).",
+        " first. Byte-for-byte preservation of arbitrary bodies is run-time string behaviour and not decided. Every comment_at_first_character returns a prefix of its argument (its length is used as the cut offset). A first-line declaration is split off a block only when nothing but blanks precedes that block (decision table of find_and_replace_header).",
         "Trusted: ast, sa/tab.py.",
         "DESIGN.md §3 C08",
     ),
@@ -209,7 +209,7 @@ CHECKS: dict[str, tuple[str, str, str, str]] = {
         " lie within what click turns into a diagnostic; each other pair is a violation unless it is one of nine named,"
         " reasoned infeasible origins whose side conditions are checked. Plus: parsed TOML values are type-checked"
         " before being iterated/indexed, the per-file isolation handler is as broad as Exception, parse errors carry"
-        " or receive the file name. OS faults outside the modelled exceptions are not decided. Bytes are decoded with an error mode whose result can be encoded again (no surrogateescape / surrogatepass).",
+        " or receive the file name. OS faults outside the modelled exceptions are not decided. Bytes are decoded with an error mode whose result can be encoded again (no surrogateescape / surrogatepass). str.format is applied to constant format strings only; ordering values whose element type is Any counts as a TypeError source.",
         "Trusted: ast, mypy's resolution and MROs, table T2. Known findings are keyed by exception and origin construct.",
         "DESIGN.md §3 C16",
     ),
@@ -235,7 +235,7 @@ CHECKS: dict[str, tuple[str, str, str, str]] = {
         " (_MultiprocessingContainer.__call__) is applied to an object the task created itself (freshness analysis with"
         " return summaries; two named exceptions for the lazy dep5 memo), so no state is carried from one file to the"
         " next. Listing order of output is deliberately not a sink. Independence of cwd and of"
-        " the spelling of --root depends on run-time path arithmetic and is not decided.",
+        " the spelling of --root depends on run-time path arithmetic and is not decided. Glob patterns built from run-time paths escape them; sorted() with a key that can tie over a set is an order hazard.",
         "Trusted: ast, mypy types/callees, table T3 (sorted, list.sort, boolean.py simplify sorts operands).",
         "DESIGN.md §3 C14",
     ),
